@@ -169,7 +169,9 @@ class World:
             if not q["dep"]:
                 return None
             t = target[q["name"]]
-            return "MessageDependency" if t == "msg" else f"Annotated[object, D{t}]"
+            # (further metadata after the marker, as annotation libraries and docs tools add it)
+            extra = ", 'doc'" if (p["fn"] + len(q["name"])) % 3 == 0 else ""
+            return "MessageDependency" if t == "msg" else f"Annotated[object, D{t}{extra}]"
         deps = ", ".join(f"{q['name']}={q['name']}" for q in s["pk"] + s["ko"] if q["dep"])
         plains = ", ".join(f"{q['name']}={q['name']}" for q in s["po"] + s["pk"] + s["ko"] if not q["dep"])
         body = f"    return W.provider_called({p['fn']}, {bool(p['fails'])}, dict({deps}), dict({plains}))"
@@ -206,7 +208,8 @@ class World:
             if q["name"] == "y":
                 return None
             t = target[q["name"]]
-            return "MessageDependency" if t == "msg" else f"Annotated[object, D{t}]"
+            extra = ", 'doc', 42" if len(target) % 2 == 0 else ""
+            return "MessageDependency" if t == "msg" else f"Annotated[object, D{t}{extra}]"
         deps = ", ".join(f"{q['name']}={q['name']}" for q in actor_deps)
         more = ", **kwargs" if varkw else ""
         body = f"    W.actor_calls.append((dict(x=x, y=y{more}), {{k: W.canon(v) for k, v in dict({deps}).items()}}))"
@@ -227,12 +230,15 @@ def val_py(v):
 # ------------------------------------------------------------------------------ scenario
 async def scenario(case: dict) -> dict:
     w = World()
-    w.build(case["providers"])
-    actor = w.make_actor(case["actor_deps"], case.get("varkw", False))
     conn = Connection(InMemoryMessageBroker())
     r = Router()
-    r.actor(actor, name="the_actor", queue="q", retry_policy=lambda retry_number=1: timedelta(seconds=1),
-            converter=BasicConverter if case["converter"] == "basic" else PydanticConverter)
+    try:
+        w.build(case["providers"])
+        actor = w.make_actor(case["actor_deps"], case.get("varkw", False))
+        r.actor(actor, name="the_actor", queue="q", retry_policy=lambda retry_number=1: timedelta(seconds=1),
+                converter=BasicConverter if case["converter"] == "basic" else PydanticConverter)
+    except Exception as e:  # noqa: BLE001
+        return {"rounds": [], "died": None, "declare_error": f"{type(e).__name__}: {e}"}
     worker = Worker(routers=[r], handle_signals=[], _connection=conn)
     await conn.message_broker.queue_declare("q")
     task = asyncio.ensure_future(worker.run())
@@ -270,6 +276,11 @@ async def scenario(case: dict) -> dict:
 
 def check_case(case: dict, o: dict, model: Model, res: Result, label: str) -> None:
     provs = {k: dict(p) for k, p in case["providers"].items()}
+    if o.get("declare_error"):
+        res.bad("impl", "a supported declaration (every provider parameter a dependency or defaulted; dependency markers inside "
+                        "Annotated, possibly followed by further metadata) was rejected when the graph was declared",
+                case={"label": label, "case": case}, observed=o["declare_error"], expected="accepted")
+        return
     if o["died"]:
         res.bad("impl", "the worker died", case={"label": label, "case": case}, observed=o["died"])
     for i, (rd, ob) in enumerate(zip(case["rounds"], o["rounds"])):
